@@ -10,7 +10,7 @@ INFO = {
                   'rtamt.semantics.abstract_dense_time_online_interpreter (reset)', 'every discrete-time and dense-time online Operation.reset',
                   'rtamt.spec.abstract_specification.AbstractOnlineSpecification.reset'],
     'bounds': {'quick': 'every past operator (F1) x bounds, F-dup, sub-specifications, pastified bounded-future formulas; k in 0..3 symbolic pre-reset updates, m=4 post-reset '
-                        'updates; symbolic (in/out of tolerance) time-stamps for the sampling counter; dense time: k in 0..2 pre-reset batches, 2 post-reset batches, n=2 samples each',
+                        'updates; symbolic (in/out of tolerance) time-stamps for the sampling counter; dense time: k in 0..2 pre-reset batches, 2 post-reset batches, n=2 samples each; stateful operators below comparison/arithmetic nodes; the notation cases of vf/pool.py (pastified where they have a future operator)',
                'thorough': 'k up to 5, m up to 6, F2 past formulas, dense n=3'},
     'outside': 'longer pre-reset histories (a field that survives reset only after >5 updates)',
     'assumptions': ['the reference is a freshly constructed, parsed (and pastified) specification object fed the same post-reset inputs'],
